@@ -401,6 +401,11 @@ fn gen_step(ty: &Ty, dec: &Decoded, bytes: &[u8], t: &mut Tape, cfg: &HistCfg, s
                     n.resize(k, x.clone());
                     step(Op::VResize(k, x), Expect::Done(Value::Vec(n)), format!("resize({}) at {:?} [len {} cap {}]", k, path, len, cap))
                 }
+                10 if t.chance(1, 3) => {
+                    let x = gen_value(et, t, &mut fuel);
+                    let n: Vec<Value> = xs.iter().map(|_| x.clone()).collect();
+                    step(Op::VIterMutFill(x), Expect::Done(Value::Vec(n)), format!("iter_mut() fill at {:?} [len {}]", path, len))
+                }
                 10 | 11 => {
                     if len == 0 {
                         return None;
@@ -607,8 +612,20 @@ pub fn run_history(sh: &dyn DynShape, tape: &[u8], cfg: &HistCfg, st: &mut Stats
         _ => 8 * t.below(64),
     };
     let route = t.route(3);
-    let v0 = gen_value(ty, &mut t, &mut fuel);
-    let n = model::size_of(ty, &v0) + extra;
+    let mut v0 = gen_value(ty, &mut t, &mut fuel);
+    // how the initial state comes into being: 0 = new_in_place(emplacer), 1 = default_in_place,
+    // 2 = a (possibly non-canonical) reference-encoded image mapped with from_mut_bytes
+    let init_route = match t.below(10) {
+        0 | 1 if sh.consts().has_default => 1,
+        2 | 3 if cfg.prop != "C05" => 2,
+        _ => 0,
+    };
+    if init_route == 1 {
+        v0 = default_value(ty);
+    }
+    let mut style = super::images::TapeStyle::from_tape(&mut t);
+    let slack_room = if init_route == 2 && !style.canonical() { 4 * a * (1 + t.below(4)) } else { 0 };
+    let n = model::size_of(ty, &v0) + extra + slack_room;
     if n > 8000 || model::encode(ty, &v0, n, 0, &mut Canonical).is_err() {
         st.label("skipped: initial value not representable / too large");
         return Ok(None);
@@ -638,8 +655,22 @@ pub fn run_history(sh: &dyn DynShape, tape: &[u8], cfg: &HistCfg, st: &mut Stats
     let mut labels: Vec<&'static str> = vec![];
 
     let buf_ref = &buf as *const Guarded;
+    if init_route == 2 {
+        // reference-encode first (non-canonical packings allowed), then map the bytes
+        let img = match model::encode(ty, &v0, n, 0x3c, &mut style) {
+            Ok(i) => i,
+            Err(_) => match model::encode(ty, &v0, n, 0x3c, &mut Canonical) {
+                Ok(i) => i,
+                Err(_) => return Ok(None),
+            },
+        };
+        buf.fill(&img.bytes);
+        labels.push("initial state mapped from a reference-encoded image");
+    } else if init_route == 1 {
+        labels.push("initial state from default_in_place");
+    }
     let r = lib(|| {
-        sh.new_in_place(buf.slice(), &v0, &route, &mut |live: &mut dyn Live| {
+        let session: &mut dyn FnMut(&mut dyn Live) = &mut |live: &mut dyn Live| {
             let check_canaries = || unsafe { (*buf_ref).check() };
             let mut abs = v0.clone();
             let mut flex_phase: std::collections::HashMap<Vec<u16>, u8> = Default::default();
@@ -883,6 +914,7 @@ pub fn run_history(sh: &dyn DynShape, tape: &[u8], cfg: &HistCfg, st: &mut Stats
                     (Expect::Done(nv), OpOut::Done) => {
                         let grew_now = matches!(step.op, Op::VPush(_) | Op::VPushSlice(_) | Op::VExtend(_) | Op::SPush(_) | Op::SPushStr(_) | Op::FPush(..) | Op::FPushDefault);
                         let shrank_now = matches!(step.op, Op::VPop | Op::VTruncate(_) | Op::VClear | Op::VRemove(_) | Op::VSwapRemove(_) | Op::SClear | Op::FPop | Op::FTruncate(_) | Op::FClear);
+                        let _ = Op::VIterMutFill(Value::Unit);
                         outcome.grew |= grew_now;
                         outcome.shrank |= shrank_now;
                         if matches!(step.op, Op::FPush(..) | Op::FPushDefault | Op::FPop | Op::FTruncate(_) | Op::FClear) {
@@ -969,7 +1001,12 @@ pub fn run_history(sh: &dyn DynShape, tape: &[u8], cfg: &HistCfg, st: &mut Stats
                     }
                 }
             }
-        })
+        };
+        match init_route {
+            1 => sh.default_in_place(buf.slice(), session).expect("harness: default route without default"),
+            2 => sh.map_mut(buf.slice(), session),
+            _ => sh.new_in_place(buf.slice(), &v0, &route, session),
+        }
     });
     st.eval(stats_evals);
     for l in labels {
